@@ -1,0 +1,28 @@
+/* -*- Mode: C; c-basic-offset:4 ; indent-tabs-mode:nil ; -*- */
+/*
+ * See COPYRIGHT in top-level directory.
+ */
+
+#ifndef ABTI_VERIF_H_INCLUDED
+#define ABTI_VERIF_H_INCLUDED
+
+/* Verification hooks.  With ABT_CONFIG_VERIF_MC defined (model-checking builds
+ * only), every busy-wait loop whose exit depends on another thread tells the
+ * controlled scheduler that it completed one iteration.  Otherwise the macro
+ * expands to nothing. */
+#ifdef ABT_CONFIG_VERIF_MC
+void abtmc_spin_hint(int site, const void *ctx);
+#define ABTI_VERIF_SPIN_HINT(site, ctx) abtmc_spin_hint((site), (ctx))
+#else
+#define ABTI_VERIF_SPIN_HINT(site, ctx) ((void)0)
+#endif
+
+#define ABTI_VERIF_SITE_SPINLOCK 1
+#define ABTI_VERIF_SITE_QUEUE_LOCK 2
+#define ABTI_VERIF_SITE_JOINER_LINK 3
+#define ABTI_VERIF_SITE_JOIN_BUSYWAIT 4
+#define ABTI_VERIF_SITE_KTABLE_LOCK 5
+#define ABTI_VERIF_SITE_XSTREAM_BARRIER 6
+#define ABTI_VERIF_SITE_SCHED_EVENTS 7
+
+#endif /* ABTI_VERIF_H_INCLUDED */
